@@ -22,7 +22,7 @@ pub const POOL_4B: &[char] = &['𠀋', '𠮷', '𪚲', '😀', '🎉', '👨', '
 pub const POOL_HOSTILE: &[char] = &[
     ' ', '/', '\\', '-', '|', ',', '"', '\r', '\n', '\t', '\u{200d}', '🇯', '🇵', '\u{3099}',
     '\u{fe0f}', '\u{0301}', 'ﾞ', '%', '#', '.', '\u{1f3fd}', '\u{1100}', '\u{1161}', '\u{11a8}',
-    '\u{7f}', '\u{85}', '\u{2028}',
+    '\u{7f}', '\u{85}', '\u{2028}', '\u{feff}', '\u{3000}', '\u{a0}', '\u{200b}', '\u{ad}', '\u{fffd}',
 ];
 
 pub const POOLS: &[&[char]] = &[
